@@ -615,6 +615,7 @@ class RebuildCheck:
                 "<" not in name:
             world.write_file(os.path.join(search, "n", name), data)
         world.write_file(os.path.join(search, "empty", "f"), b"")
+        world.write_file(os.path.join(search, "benign", "!ok"), data)
         n = 0
         variants = []
         for seq in elem_seqs:
@@ -625,6 +626,11 @@ class RebuildCheck:
                 if last == "f":
                     # the same with a zero-length file (separate copy site)
                     variants.append((seq, last, False, b"", None))
+        # a benign entry listed before the hostile one (its verified copy
+        # must not relax what is checked for the next entry)
+        for seq in elem_seqs:
+            if seq:
+                variants.append((seq, "f", False, data, "BENIGN-FIRST"))
         if name == "top":
             # benign metafile, but the destination already contains a symlink
             # that leads outside
@@ -644,6 +650,9 @@ class RebuildCheck:
                     n += 1
                     dest = os.path.join(deep, f"dest{n}")
                     os.mkdir(dest)
+                    benign_first = link_at == "BENIGN-FIRST"
+                    if benign_first:
+                        link_at = None
                     if link_at:
                         outside = os.path.join(sb, f"outside{n}")
                         os.mkdir(outside)
@@ -667,6 +676,9 @@ class RebuildCheck:
                     rseq = tuple(subst.get(e, e) for e in seq)
                     rname = subst.get(name, name)
                     tree = {(): data} if single else {rseq + (last,): data}
+                    if benign_first:
+                        # "!ok" sorts before every hostile element
+                        tree[("!ok",)] = data
                     if ver == 1:
                         m = model.ref_v1(rname, tree, P)
                     elif ver == 2:
@@ -735,13 +747,15 @@ class RebuildCheck:
                             hostile += "+empty-file"
                         if victims:
                             hostile += "+existing-outside-file"
+                        if benign_first:
+                            hostile += "+after-a-benign-entry"
                         found.append((
                             f"C19|v{ver}|{prob}|hostile-{hostile}",
                             {"kind": "hostile", "version": ver,
                              "ni": g["ni"], "seq": list(seq), "last": last,
                              "single": single, "seed": seed,
                              "empty": not data, "link": link_at,
-                             "victims": victims},
+                             "victims": victims, "benign_first": benign_first},
                             {"changed": ch[:5], "events": bad_ev[:3]}))
                         # clean escaped files so that later cases start clean
                         for k in ch:
@@ -830,7 +844,8 @@ class RebuildCheck:
                 and f[1]["single"] == case["single"]
                 and f[1].get("empty") == case.get("empty")
                 and f[1].get("link") == case.get("link")
-                and f[1].get("victims") == case.get("victims")]
+                and f[1].get("victims") == case.get("victims")
+                and f[1].get("benign_first") == case.get("benign_first")]
         elif kind == "prestate":
             w = case["world"]
             files = world.files_of(w, case["seed"])
